@@ -114,6 +114,12 @@ def gen(ctx):
                                                 ("execute", cmd_execute(1, second)), ("ping", cmd_ping())],
                                  ["p reply 1 %s 0" % progs.cols_tok([dict(table=b"", name=b"?", type=253, flags=0)]),
                                   "x all - done 0 0", "x all - done 0 0"]))
+    # statements declared with the largest parameter counts the wire format allows
+    for npar in (65535,):
+        n += 1
+        blk = exec_block([True] * npar, [(6, False)] * npar, [])
+        cases.append(mk_case("c20w_%d" % n, [("prepare", cmd_prepare(b"p")), ("execute", cmd_execute(1, blk)), ("ping", cmd_ping())],
+                             ["p reply 1 %s 0" % progs.cols_tok([dict(table=b"", name=b"", type=6, flags=0)] * npar), "x 2 - done 0 0"]))
     # fragment ids out of order (small limit)
     for ids in ([0, 1, 2], [0, 2, 3], [5, 5, 6], [255, 0, 1], [255, 1, 2], [0, 1, 1]):
         n += 1
